@@ -30,10 +30,12 @@ def run(ck):
     ck.rule("C18.R3", "bridge decision tables (LogTracer::enabled, dispatch_record)", floor=4)
     ck.rule("C18.R4", "log emission only until a collector is installed; at most one per path", floor=100)
     ck.rule("C18.R5", "`a collector has been installed` is sticky: set by both install paths, has_been_set() reads only that flag", floor=3)
+    ck.rule("C18.R7", "normalized_metadata carries target, file, line and module path each from its own log field, independently", floor=1)
     ck.rule("C18.R6", "LogTracer builder options accumulate: no builder call discards an ignored prefix or the max level", floor=3)
     F = Facts("default")
     ck.configs.append("default")
     r6(ck, F)
+    r7(ck, F)
     r5(ck, F)
     r1(ck, F)
     r2(ck, F)
@@ -442,3 +444,39 @@ def r6(ck, F):
 
 def option_set_by(method):
     return {"with_max_level": "filter"}.get(method)
+
+
+def r7(ck, F):
+    """A bridged log record keeps whatever part of its source location it had: each Metadata component is built from the
+    same-named field of the LogVisitor alone (a record with a file but no line keeps the file)."""
+    b = next((x for x in F.body_list if x.crate == "tracing_log" and x.path.endswith("NormalizeEvent<'a>>::normalized_metadata")), None)
+    if not ck.anchor("C18.R7", "NormalizeEvent::normalized_metadata", b):
+        return
+    key = "normalized_metadata: target/file/line/module_path each from its own field"
+    problems = []
+    n = 0
+    for p in PathEval(b).run():
+        if p.end != "return" or not p.ret or p.ret[0] != "agg" or p.ret[2] != "Some":
+            continue
+        new = p.ret[3][0] if p.ret[3] else None
+        if not (new and new[0] == "call" and new[1].endswith("Metadata::<'a>::new") and len(new[2]) >= 6):
+            problems.append("Some(..) is not built by Metadata::new")
+            continue
+        n += 1
+        args = new[2]
+        want = {1: "target", 3: "file", 4: "line", 5: "module_path"}
+        others = set(want.values())
+        for idx, name in want.items():
+            txt = show(args[idx])
+            if ("." + name) not in txt:
+                problems.append("Metadata::new's %s argument is %s: not taken from the visitor's `%s`" % (name, txt[:80], name))
+            for o in others - {name}:
+                if ("." + o) in txt and not (name == "target"):
+                    problems.append("the %s of the normalised metadata also depends on the record's `%s` (%s): a record that has one but not the other loses it" % (name, o, txt[:80]))
+        lvl = show(args[2])
+        if not lvl.startswith("level(metadata(arg1))"):
+            problems.append("the level is %s, not the original event's level" % lvl[:60])
+    if n and not problems:
+        ck.ok("C18.R7", key, fn=b.path)
+    else:
+        ck.bad("C18.R7", key, where(b.raw["sp"]), "; ".join(sorted(set(problems))[:3]) or "no Some(Metadata::new(..)) path", fn=b.path)
